@@ -41,6 +41,14 @@ pub fn recursive_program(idx: u64) -> Program {
     for i in 0..nleaf {
         p.funcs.push(func(&format!("leaf{}", i), vec![inc(r)]));
     }
+    // a routine that only has a prototype (written in assembler elsewhere), called from leaf0
+    if idx % 3 == 0 {
+        let ext = p.funcs.len();
+        let mut f = func("ext_sfx", vec![]);
+        f.proto_first = true;
+        p.funcs.push(f);
+        p.funcs[0].body.push(call(ext));
+    }
     let leaf = |rng: &mut Rng| rng.below(nleaf as u64) as usize;
     let shape = idx % 4;
     match shape {
